@@ -77,6 +77,15 @@ def fn_invocations(item):
             for variant, feature in (("entrait", False), ("entrait_export", True)):
                 inv.append(dict(attr=", ".join(["Tr"] + list(sel)), variant=variant, feature=feature,
                                 key=sem_fn(variant == "entrait_export", feature, fm, api, ms), family="orders"))
+    # (3) `debug` only prints the expansion: wherever it is written, in whatever form, the tokens are those of the invocation without it
+    for base, fm, api, ms in (([], {}, False, False), (["mock_api = TrMock"], {}, True, False), (["mockall"], {"mockall": "bare"}, False, False),
+                              (["export", "?Send"], {"export": "bare"}, False, True), (["unimock = false", "mock_api = TrMock"], {"unimock": "false"}, True, False)):
+        for dbg in ("debug", "debug = true", "debug = false"):
+            for pos in range(len(base) + 1):
+                parts = ["Tr"] + base[:pos] + [dbg] + base[pos:]
+                for variant, feature in (("entrait", False), ("entrait", True), ("entrait_export", False)):
+                    inv.append(dict(attr=", ".join(parts), variant=variant, feature=feature,
+                                    key=sem_fn(variant == "entrait_export", feature, fm, api, ms), family="debug"))
     if item == "mod":
         # `no_deps` is documented for fn targets only: its effect on modules is not prescribed -> drop those
         inv = [i for i in inv if "no_deps" not in i["attr"]]
@@ -98,6 +107,12 @@ def trait_invocations():
                            "send", "?Send" not in sel, "dg", "delegate_by = ref" in sel)
                     inv.append(dict(attr=", ".join(([lead] if lead else []) + list(sel)), variant=variant, feature=feature,
                                     key=key, family="orders"))
+    for dbg in ("debug", "debug = true", "debug = false"):
+        for sel in ([], ["delegate_by = ref"], ["mock_api = TMock", "mockall"]):
+            for pos in range(len(sel) + 1):
+                for feature in (False, True):
+                    key = ("lead", "", "um", feature, "ma", "mockall" in sel, "api", "mock_api = TMock" in sel, "send", True, "dg", "delegate_by = ref" in sel)
+                    inv.append(dict(attr=", ".join(sel[:pos] + [dbg] + sel[pos:]), variant="entrait", feature=feature, key=key, family="debug"))
     # value forms of the boolean trait options
     for fu in FORMS:
         for fm in FORMS:
